@@ -1,13 +1,15 @@
 """run one run index of a property in-process and print its violations: one.py PROP SEED INDEX [py|cy]"""
 import sys, os, json
 sys.path.insert(0, os.path.dirname(os.path.dirname(os.path.abspath(__file__))))
-from sim import build, rng, checks
+from sim import build, rng, checks, runner
 prop, seed, i = sys.argv[1], int(sys.argv[2]), int(sys.argv[3])
 cy = len(sys.argv) > 4 and sys.argv[4] == "cy"
 snap = build.snapshot(compiled=cy); bt = build.load(snap, compiled=cy)
+runner._SNAP = snap; runner._BUILD = "cy" if cy else "py"
 spec = checks.SPECS[prop]
 rng.pin_globals(rng.derive(seed, prop, i, "g"))
 plan = spec.gen(rng.run_rng(seed, prop, i), "quick", i)
+json.dump(plan, open("/tmp/one_plan.json", "w"), default=str)
 res = spec.run(bt, plan)
 for v in res["viol"]: print(v["check"], v["detail"][:400], v["flags"])
 json.dump(plan, open("/tmp/one_plan.json", "w"), default=str)
